@@ -14,12 +14,12 @@ ASSUMPTIONS = ["message level (see C17)",
 
 
 def correspondence(ctx):
-    return corr14.run(ctx, 60 if ctx.quick else 2500, 120 if ctx.quick else 5000, 18)
+    return corr14.run(ctx, ctx.n(60, 2500), ctx.n(120, 5000), 18)
 
 
 def oracle(ctx, full):
     rng = random.Random(ctx.seed * 7907 + 18)
-    n = 40 if (ctx.quick and not full) else 2000
+    n = ctx.n(40, 2000, full)
     findings, evals, distinct, samples = [], 0, set(), []
     stat = dict(ops=0, wrongkey=0, refused_proceed=0, refused_respond=0, absent=0)
     for k in range(n):
